@@ -46,8 +46,17 @@ Shape(k) ==
     [] k = "chunked"   -> << <<"type", 1>>, <<"uleb", 1>>, <<"fixed", 2>>, <<"uleb", 1>>, <<"fixed", 1>> >>
     [] k = "marked"    -> << <<"type", 1>>, <<"type", 1>>, <<"uleb", 1>>, <<"fixed", 2>>, <<"type", 1>> >>
     [] k = "f32"       -> << <<"type", 1>>, <<"fixed", 4>> >>
+    (* media: two-byte type, length and text of the media type, one chunk *)
+    [] k = "media"     -> << <<"type", 1>>, <<"type", 1>>, <<"uleb", 1>>, <<"fixed", 18>>, <<"uleb", 1>>, <<"fixed", 2>> >>
 Kinds == {"small", "int16", "int64", "bigint", "dfloat", "date", "time", "timestamp",
-          "short-str", "long-str", "chunked", "marked", "f32"}
+          "short-str", "long-str", "chunked", "marked", "f32", "media"}
+
+(* the size of the value as an array (what MaxArraySizeBytes is about): the *)
+(* bytes of its data; a media type is a byte array too (18 > 2 data bytes)   *)
+ABytes(k) == CASE k = "short-str" -> 3 [] k = "long-str" -> 20 [] k = "chunked" -> 3 [] k = "media" -> 18 [] OTHER -> 0
+RECURSIVE MaxABytes(_)
+MaxABytes(ks) == IF ks = <<>> THEN 0
+                 ELSE LET m == MaxABytes(Tail(ks)) IN IF ABytes(Head(ks)) > m THEN ABytes(Head(ks)) ELSE m
 
 (* header: signature (type path), version (uleb); then either a list        *)
 (* (type ... end) or, for a single value, the bare value as the top-level   *)
@@ -106,5 +115,5 @@ Exact == /\ (st = "refused") => pos > limit
          /\ (st = "accepted") => Sum(Reads(kinds)) <= limit
 
 Emit == (st \in {"accepted", "refused"}) =>
-          PrintT("@@" \o ToJson([kinds |-> kinds, size |-> Sum(Reads(kinds)), limit |-> limit, bare |-> bare, st |-> st, at |-> pos]))
+          PrintT("@@" \o ToJson([kinds |-> kinds, size |-> Sum(Reads(kinds)), limit |-> limit, bare |-> bare, abytes |-> MaxABytes(kinds), st |-> st, at |-> pos]))
 =============================================================================
